@@ -124,6 +124,12 @@ ERROR_ARRAY_ACCESS_WITH_NONINTEGER = ErrorMessage(
     2010, Severity.ERROR, """Array access requires an integer, got '{}'."""
 )
 
+ERROR_AFFIX_REQUIRES_SCALAR = ErrorMessage(
+    2011,
+    Severity.ERROR,
+    """Increment/decrement requires a scalar, got '{}'.""",
+)
+
 ERROR_AMBIGUOUS_FUNCTION_CALL = ErrorMessage(
     2101, Severity.ERROR, """Ambiguous function call: '{}'."""
 )
